@@ -205,6 +205,9 @@ pub fn compare(file: &str, got: &Result<Vec<Rule>, ParseError>, want: &RefResult
                     if f != file { return Some(format!("error names file {:?} instead of {:?}", f, file)); }
                     if k != *kind { return Some(format!("error kind {} instead of {}", k, kind)); }
                     if l != *line { return Some(format!("{} reported at line {} instead of {}", k, l, line)); }
+                    // what the user reads must name the file and the line as well
+                    let msg = format!("{}", e);
+                    if !msg.contains(&format!("{}:{}", file, line)) { return Some(format!("the error message {:?} does not name {}:{}", msg, file, line)); }
                     None
                 },
                 None => Some(format!("bundle error {:?} where {} at line {} is expected", e, kind, line)),
@@ -220,6 +223,8 @@ pub fn compare(file: &str, got: &Result<Vec<Rule>, ParseError>, want: &RefResult
                     let d = bundle_defect_of(be);
                     let ok = ds.contains(&d) || (matches!(d, BundleDefect::Contradiction(..)) && ds.contains(&BundleDefect::AnyContradiction));
                     if !ok { return Some(format!("bundle error {:?} does not match any defect present {:?}", be, ds)); }
+                    let msg = format!("{}", e);
+                    if !msg.contains(file) { return Some(format!("the error message {:?} does not name the file {}", msg, file)); }
                     None
                 },
                 other => Some(format!("error {:?} where a bundle error {:?} is expected", other, ds)),
